@@ -2,7 +2,7 @@
 From AV.Model Require Import Base Bytes Vec Ops Interp.
 From AV.Spec Require Import VecSpec.
 From AV.Proofs Require Import MemLemmas Rep VecProofs TempProofs RangeProofs CapProofs CloneProofs NoFault HandleProofs.
-From WIP Require Import WorldSpec.
+From AV.Spec Require Import WorldSpec.
 Arguments N.add : simpl never.
 Arguments N.sub : simpl never.
 Arguments N.mul : simpl never.
